@@ -285,6 +285,7 @@ def c10(tier):
       stubs=["_upAp7, _upAp7r -> integer model (FIJK jobs only)"])
 def c03(tier):
     js = []
+    js.append(J("valid_predicate_allwords", "C01_valid.c", unwind=17, est=5, bound="the validity predicate the count refers to: all 2^64 words"))
     js += with_witness(J("counts", "C03_counts.c", ["-DCOUNTS"], unwind=17, us={"harness.0": 123, "harness.1": 123, "harness.2": 123, "_ipow.0": 6}, est=20, bound="all int resolutions"))
     js += with_witness(J("res0", "C03_counts.c", ["-DRES0"], unwind=17, est=10, bound="all valid res-0 cells, all slots"))
     for r in ALLRES:
